@@ -277,6 +277,59 @@ theorem oracle_sound {K C : Type} [DecidableEq C] (ctx : K → C) (h : List (KOp
 example : (((Oracle.init : Oracle Nat).run (fun (k : Nat) => k) [.record 1 0 2, .syncAll, .record 2 0 5]).ghostOf 1
     == ⟨[(0, 2)], [(0, 2)], 0⟩) = true := by decide
 
+/-! ### rows no record was sent to -/
+
+theorem project_not_record {K : Type} (idx : K → Nat) (j : Nat) (op : KOp K) (h : op.recordsAt idx j = false) :
+    isRecord ((op.toOp idx).project j) = false := by
+  cases op with
+  | record k s1 r =>
+    have : idx k ≠ j := by simpa [KOp.recordsAt] using h
+    simp [KOp.toOp, Op.project, this, isRecord]
+  | syncAll => rfl
+  | sync k => simp only [KOp.toOp, Op.project]; split <;> rfl
+  | syncAt i k => simp only [KOp.toOp, Op.project]; split <;> rfl
+  | reset => rfl
+  | ctor b => rfl
+
+theorem ghost_recs_nil_of_no_record : ∀ (l : List LOp) (g : Ghost), g.recs = [] →
+    l.all (fun op => !isRecord op) = true → (g.run l).recs = []
+  | [], g, hg, _ => by simpa [Ghost.run] using hg
+  | op :: t, g, hg, hl => by
+    simp only [List.all_cons, Bool.and_eq_true] at hl
+    simp only [Ghost.run, List.foldl_cons]
+    apply ghost_recs_nil_of_no_record t (g.step op) _ hl.2
+    cases op with
+    | record s1 r => simp [isRecord] at hl
+    | sync => simpa [Ghost.step] using hg
+    | syncInc s1 => simpa [Ghost.step] using hg
+    | reset => simp [Ghost.step]
+    | ctor b => cases b <;> simpa [Ghost.step] using hg
+    | nop => simpa [Ghost.step] using hg
+
+/-- **keyed_untouched_row** — whatever the index function does, a row no `record` call was resolved to holds no data after any
+    history (count 0, mean 0, M2 0, all next-value counts 0) and its model row is the fixed valid default with reward 0.  Together
+    with `keyed_mirrors_history` every row of every table is accounted for: owned by a context, or untouched. -/
+theorem keyed_untouched_row {K : Type} (idx : K → Nat) (np w : Nat) (dflOf : Nat → Nat) (junk : Rat)
+    (h : List (KOp K)) (j : Nat) (hj : j < np) (hno : ∀ op ∈ h, op.recordsAt idx j = false) :
+    ∃ p, ((World.init np w dflOf).run (cfgPlain junk) (h.map (KOp.toOp idx))).pairs[j]? = some p ∧
+      p.cell.n = 0 ∧ p.cell.mean = 0 ∧ p.cell.m2 = 0 ∧ (∀ k, k < w → nthN p.cnt k = 0) ∧
+      p.row = unit w (dflOf j) ∧ p.rew = 0 := by
+  refine ⟨_, world_pair_eq _ np w dflOf _ j hj, ?_⟩
+  have hnr : ((h.map (KOp.toOp idx)).map (Op.project j)).all (fun op => !isRecord op) = true := by
+    rw [List.all_eq_true]
+    intro l hl
+    obtain ⟨o, ho, rfl⟩ := List.mem_map.mp hl
+    obtain ⟨op, hop, rfl⟩ := List.mem_map.mp ho
+    simp [project_not_record idx j op (hno op hop)]
+  obtain ⟨hr, hw⟩ := unvisited_keep_default_current (IsCurrent.plain junk) w (dflOf j) j _ hnr
+  have hg := ghost_recs_nil_of_no_record _ Ghost.init rfl hnr
+  have he := ExpOK.run (cfgPlain junk) w ((h.map (KOp.toOp idx)).map (Op.project j)) (Pair.init w (dflOf j) j) Ghost.init
+    (by simpa [Ghost.init] using ExpOK.init w (dflOf j) j)
+  rw [hg] at he
+  obtain ⟨a, b, c, d⟩ := he.spec
+  exact ⟨by simpa using a, by simpa [meanOf] using b, by simpa [sqDevOf, meanOf, sumQ] using c,
+    fun k hk => by simpa [countS1] using d k hk, hr, hw⟩
+
 /-! ## §2 `DDNGraph::getId` separates exactly the contexts -/
 
 theorem toIndexPartial_eq_toIndex (keys sp f : List Nat) : toIndexPartial keys sp f = toIndex (sel keys sp) (sel keys f) := by
